@@ -40,7 +40,7 @@ RULE_TEXT = {
     "FWD-1": "comparison / hashing / formatting / borrowing impls forward to the same method on the value, operands in order, result unchanged, no side effects",
     "ITER-1": "loops over hash-ordered collections and the worklist leave only through exhaustion; closures of search adaptors are effect-free",
     "ITER-2": "inside a loop over a hash-ordered collection, counters / link tables / contents are only written on the box named by the element being visited (or local accumulators)",
-    "ITER-3": "no order-sensitive adaptor or consumer (take/skip/take_while/skip_while/step_by/nth/last/rev/enumerate/zip/position/min_by/max_by ...) is applied to an iterator over a hash-ordered container; a fold or loop-carried accumulator over one is combined with the elements by a single commutative family of operations",
+    "ITER-3": "no order-sensitive adaptor or consumer (take/skip/take_while/skip_while/step_by/nth/last/rev/enumerate/zip/position/min_by/max_by ...) is applied to an iterator over a hash-ordered container; a fold or loop-carried accumulator over one is combined with the elements by a single commutative family of operations; the trace's table walk does not queue a forward target on some paths and skip it on others outside the visited-set guard (what the walk has accumulated so far must not decide what is traced)",
     "ITER-4": "addresses are never ordered (only ==, != and hashing)",
     "ITER-5": "no group-sized loop or linear scan is nested in a group-sized loop",
     "CG-1": "the crate's call graph is acyclic",
